@@ -45,6 +45,7 @@ EXITS = [
 LOOPS = [
     ('for', "for (int i = 0; i < n; i += 1) { BODY }"),
     ('while', "int i = 0; while (i < n) { i += 1; BODY }"),
+    ('while_true', "int i = 0; while (true) { i += 1; if (i > n) { break; } BODY }"),
 ]
 
 # shapes: where the array (ARR) and the exit (EXIT) sit relative to the loop body
@@ -60,6 +61,8 @@ SHAPES = [
     ('loop_last_in_block', "{ ARR for (int j = 0; j < 3; j += 1) { ARR2 if (i % 3 == 1 and j == 1) { EXIT } } } write('.');"),
     ('if_else_last_in_block', "{ ARR if (i % 3 == 1) { EXIT } else { sink += 2; } } write('.');"),
     ('array_in_for_init_scope', "for (int j = x - x; j < 2; j += 1) { ARR if (i % 3 == 1 and j == 1) { EXIT } }"),
+    # the exit is the unconditional LAST statement of the loop body itself
+    ('exit_last_unconditional', "ARR write('.'); if (i > 50) { return; } EXIT"),
     ('guard_break_before_array', "if (i == 5) { write('G'); break; } ARR if (i % 3 == 1) { EXIT } write('.');"),
 ]
 
